@@ -651,6 +651,7 @@ package lang
 //@   ensures[C11] fault-latched: $faulted <==> isFault(err)
 //@   init $n = 0
 //@   after Evaluator.evalExpr: $n = $n + 1
+//@   assert[C05,C06] the-operand-is-the-nodes-own-child-evaluated-once: arg1 == expr.Expr && $n == 0 @ Evaluator.evalExpr
 //@   after Evaluator.evalExpr: $L = ($n == 1 ? ret0 : $L)
 //@   after Evaluator.evalExpr: $tL = ($n == 1 && ret1 == nil ? specTruthy(ret0.Value) : $tL)
 //@   after Evaluator.evalExpr: $numL = ($n == 1 && ret1 == nil ? specNum(ret0.Value) : $numL)
@@ -691,6 +692,7 @@ package lang
 //@   after Evaluator.evalExpr: $R = ($n == 2 ? ret0 : $R)
 //@   after Evaluator.evalExpr: $okR = ($n == 2 ? ret1 == nil : $okR)
 //@   after Lexer.GetString: $isName = ret0
+//@   assert[C05,C06,C07] the-operands-are-the-nodes-own-children-left-first-and-nothing-else-is-evaluated: ($n == 0 ==> arg1 == expr.Left) && ($n == 1 ==> arg1 == expr.Right) && $n <= 1 @ Evaluator.evalExpr
 //@   ensures[C09,C11] a-member-of-something-unset-is-named-by-a-number-or-a-string: (expr.OpToken.Tag == LSquare || expr.OpToken.Tag == Dot) && $n == 2 && $okR && $R.Value.Tag != ValueNum && $R.Value.Tag != ValueStr && $L.Value.Tag == ValueUnknown ==> err != nil
 //@   ensures[C05] plus-concatenates-with-a-string: expr.OpToken.Tag == Plus && $n == 2 && $okR && ($L.Value.Tag == ValueStr || $R.Value.Tag == ValueStr) ==> err == nil && result0.Value.Tag == ValueStr && *result0.Value.Str == specStr($L.Value) + specStr($R.Value)
 //@   ensures[C05] plus-adds-otherwise: expr.OpToken.Tag == Plus && $n == 2 && $okR && $L.Value.Tag != ValueStr && $R.Value.Tag != ValueStr ==> err == nil && result0.Value.Tag == ValueNum && same(*result0.Value.Num, specNum($L.Value) + specNum($R.Value))
